@@ -155,6 +155,7 @@ class AirTouchSocket(Generic[comms.Hdr]):
         self.is_connected = False
 
         self._background_tasks: set[asyncio.Task[Any]] = set()
+        self._connect_task: Optional[asyncio.Task[Any]] = None
 
         self._reader: Optional[asyncio.StreamReader] = None
         self._writer: Optional[asyncio.StreamWriter] = None
@@ -167,7 +168,7 @@ class AirTouchSocket(Generic[comms.Hdr]):
     async def open_socket(self) -> None:
         """Open the socket to the AirTouch."""
         if not self.is_open:
-            self._schedule(self._connect())
+            self._schedule_connect()
             self.is_open = True
 
     async def close(self) -> None:
@@ -271,7 +272,7 @@ class AirTouchSocket(Generic[comms.Hdr]):
 
     def _schedule(
         self, coro: Coroutine[Any, Any, Any], delay: Optional[float] = None
-    ) -> None:
+    ) -> asyncio.Task[Any]:
         """Schedule a co-routine to run in the background with an optional delay."""
         if delay:
             coro = _delay(coro, delay)
@@ -290,6 +291,19 @@ class AirTouchSocket(Generic[comms.Hdr]):
                     )
 
         task.add_done_callback(discard_task)
+        return task
+
+    def _schedule_connect(self, delay: Optional[float] = None) -> None:
+        """Schedule a connection attempt unless another one is already pending.
+
+        Several error paths (read loop, write path, explicit resets) can ask for
+        a re-connection at the same time. Only one attempt may be in flight,
+        otherwise each of them would open its own connection.
+        """
+        pending = self._connect_task
+        if pending and not pending.done() and pending is not asyncio.current_task():
+            return
+        self._connect_task = self._schedule(self._connect(), delay=delay)
 
     async def _connect(self) -> None:
         if self.is_connected:
@@ -315,7 +329,7 @@ class AirTouchSocket(Generic[comms.Hdr]):
 
         if not self.is_connected:
             # Connection failed, so retry after a small delay
-            self._schedule(self._connect(), delay=_CONNECT_RETRY_DELAY)
+            self._schedule_connect(delay=_CONNECT_RETRY_DELAY)
 
     async def _disconnect(self) -> None:
         _LOGGER.debug("_disconnect: is_connected=%s", self.is_connected)
@@ -340,7 +354,7 @@ class AirTouchSocket(Generic[comms.Hdr]):
         underlying socket.
         """
         await self._disconnect()
-        self._schedule(self._connect())
+        self._schedule_connect()
 
     async def _read(self) -> None:
         """The main read loop for the AirTouch socket."""
